@@ -7,6 +7,7 @@ from storemodel import StoreModel
 from tickermodel import TickerModel
 from ackmodel import AckModel
 
+WITNESSES = ['W2EntryUpdatePrivate']
 LEVEL = "other"
 EXPLANATION = ("Finite decision tables extracted from MIR and compared with the specification: the field-wise entry "
                "update over (remove-ttl flag, ttl Some/None, value Some/None); the classification of the expiry "
